@@ -864,6 +864,14 @@ class Engine:
         # rnd never crosses an integer in that range
         p.assume(z3.Implies(z3.And(x <= z3.ToReal(M.TWO53), x >= -z3.ToReal(M.TWO53)),
                             z3.And(y >= z3.ToReal(z3.ToInt(x)), y <= z3.ToReal(z3.ToInt(x)) + 1)))
+        # monotonicity, instantiated pairwise for the applications on this path
+        apps = getattr(p, "rnd_apps", None)
+        if apps is None:
+            apps = p.rnd_apps = []
+        for (x2, y2) in apps[-6:]:
+            p.assume(z3.Implies(x <= x2, y <= y2))
+            p.assume(z3.Implies(x2 <= x, y2 <= y))
+        apps.append((x, y))
         return y
 
     def float_result(self, x, zero_kind):
